@@ -90,7 +90,7 @@ type c18Notifier struct {
 }
 
 func (n *c18Notifier) Notify(c chan<- os.Signal, sig ...os.Signal) { n.ch = c; n.sigs = sig }
-func (n *c18Notifier) Stop(_ chan<- os.Signal)                      {}
+func (n *c18Notifier) Stop(_ chan<- os.Signal)                     {}
 
 const c18Bound = 3 * time.Second
 
@@ -330,6 +330,14 @@ type c18RW struct {
 	notify  chan c18Note
 	cleanup atomic.Bool
 	t0      time.Time
+	// logical clock: every Now() call returns a later instant, and a Refresh in between makes
+	// time pass as well; the schedule has to be consulted with the instant read AFTER the
+	// refresh (a time taken from before it is stale by the duration of the refresh)
+	ticks     int64
+	lastNow   time.Time
+	nowEpoch  int64 // value of refreshEpoch when lastNow was handed out
+	refrEpoch int64 // number of completed loop refreshes
+	staleNow  string
 }
 
 func (r *c18RW) rec(s string) {
@@ -341,7 +349,14 @@ func (r *c18RW) rec(s string) {
 
 // clock
 
-func (r *c18RW) Now() time.Time { return r.t0 }
+func (r *c18RW) Now() time.Time {
+	r.mu.Lock()
+	defer r.mu.Unlock()
+	r.ticks += 1000
+	r.lastNow = r.t0.Add(time.Duration(r.ticks))
+	r.nowEpoch = r.refrEpoch
+	return r.lastNow
+}
 
 func (r *c18RW) After(d time.Duration) <-chan time.Time {
 	ch := make(chan time.Time, 1)
@@ -365,11 +380,19 @@ func (r *c18RW) After(d time.Duration) <-chan time.Time {
 
 // schedule
 
-func (r *c18RW) UntilNext(_ time.Time) time.Duration {
+func (r *c18RW) UntilNext(now time.Time) time.Duration {
 	if r.cleanup.Load() {
 		return time.Hour
 	}
 	r.mu.Lock()
+	if r.staleNow == "" {
+		switch {
+		case r.lastNow.IsZero() || !now.Equal(r.lastNow):
+			r.staleNow = fmt.Sprintf("UntilNext was given %v, the clock's latest Now() answer is %v", now.Sub(r.t0), r.lastNow.Sub(r.t0))
+		case r.nowEpoch != r.refrEpoch:
+			r.staleNow = fmt.Sprintf("UntilNext was given a time read before refresh #%d completed", r.refrEpoch)
+		}
+	}
 	k := r.nU
 	r.nU++
 	d := 1
@@ -418,6 +441,12 @@ func (r *c18RW) Refresh(ctx context.Context) error {
 	r.notify <- c18Note{kind: "refresh", who: who, reply: reply}
 	select {
 	case code := <-reply:
+		r.mu.Lock()
+		r.ticks += 7 * 60 * 1000 // the refresh took a while
+		if who != "final" {
+			r.refrEpoch++
+		}
+		r.mu.Unlock()
 		if code == 0 {
 			return nil
 		}
@@ -638,6 +667,9 @@ wait:
 }
 
 // c18RunScript runs one scenario on the real RefreshWorker.
+// c18LastStaleNow is set by c18RunScript: the first stale time the schedule was consulted with.
+var c18LastStaleNow string
+
 func c18RunScript(ros bool, sched []c18Sched, evs []string) (groups []*c18Group, timeouts int) {
 	if c18Base < 0 {
 		c18Base = runtime.NumGoroutine()
@@ -735,6 +767,9 @@ func c18RunScript(ros bool, sched []c18Sched, evs []string) (groups []*c18Group,
 	if !c18WaitGoroutines(c18Base, c18Bound) {
 		d.timeouts++
 	}
+	r.mu.Lock()
+	c18LastStaleNow = r.staleNow
+	r.mu.Unlock()
 	return groups, d.timeouts
 }
 
@@ -867,7 +902,11 @@ func evalC18RW(ros bool, sched []c18Sched, evs []string, reps int) Result {
 			firstImpl = impl
 			lastGroups = gs
 		}
-		if dres := c18OracleRW(ros, gs); dres != "ok" && firstBad == "" {
+		dres := c18OracleRW(ros, gs)
+		if dres == "ok" && c18LastStaleNow != "" {
+			dres = fail("stale-now", "the schedule was consulted with a stale time: %s", c18LastStaleNow)
+		}
+		if dres != "ok" && firstBad == "" {
 			firstBad, badDirect = impl, dres
 			lastGroups = gs
 			break
